@@ -1,11 +1,12 @@
 (** C02: the side condition [EncInv] of [wiring_correct] holds of every reachable graph, given how the
-    per-case universe is built and that no definition is exported under two names (the real API allows
-    [export(definition_node, other_name)]: a known finding, so this one hypothesis stays).
+    per-case universe is built. That no definition is exported under two names ([DefsSingle]) is DERIVED
+    for every reachable graph ([GraphDefExport.reach_def_exp]: [export(definition_node, other_name)]
+    renames the definition; before the repair of that operation it was a hypothesis).
     A new history invariant [KindInv] records what item a node carries (an instantiation the instance
     kind of its package, a definition the kind of a definable type together with an export name) and
     that the occupied slots of the package table hold distinct packages. *)
 From Coq Require Import List Arith Bool NArith Lia.
-From WacV Require Import Str Graph Wiring WiringSpec EncodeModel GraphInv GraphPrims GraphSteps GraphRemove GraphUnreg GraphTheorems GraphLive GraphAcyclic GraphRank GraphAlias GraphFrame GraphQueries WiringSim SemverProofs.
+From WacV Require Import Str Graph Wiring WiringSpec EncodeModel GraphInv GraphPrims GraphSteps GraphRemove GraphUnreg GraphTheorems GraphLive GraphAcyclic GraphRank GraphAlias GraphFrame GraphDefExport GraphQueries WiringSim SemverProofs.
 Import ListNotations.
 Local Open Scope nat_scope.
 
@@ -385,9 +386,18 @@ Proof.
 Qed.
 
 (** * from the invariants to [EncInv] *)
-(** the hypothesis that cannot be derived: a definition is exported under one name only *)
+(** a definition is exported under one name only: holds of every reachable graph ([reach_defs_single]) *)
 Definition DefsSingle (g : gstate) : Prop :=
   forall nm nm' n, In (nm, n) (exports g) -> In (nm', n) (exports g) -> is_def g n = true -> nm' = nm.
+
+Lemma defs_single_of_def_exp g : DefExp g -> DefsSingle g.
+Proof.
+  intros H nm nm' n H1 H2 D. unfold is_def in D. destruct (get_node g n) as [nd|] eqn:G; [|discriminate].
+  destruct (nk nd) eqn:K; try discriminate. eapply def_exp_single; eauto.
+Qed.
+
+Theorem reach_defs_single : forall u ops, DefsSingle (run u ops).
+Proof. intros u ops. apply defs_single_of_def_exp, reach_def_exp. Qed.
 
 Lemma def_name_listed e g nm n :
   In (nm, n) (exports g) -> exists nm', In (nm', n) (exports g) /\ def_name e g n = nstr e nm'.
@@ -441,10 +451,11 @@ Proof.
 Qed.
 
 Theorem enc_inv_reachable : forall e u ops,
-  UnivOK e u -> DefsSingle (run u ops) -> EncInv e u (run u ops).
+  UnivOK e u -> EncInv e u (run u ops).
 Proof.
-  intros e u ops UO DS. apply enc_inv_of_invariants; auto.
+  intros e u ops UO. apply enc_inv_of_invariants; auto.
   - apply reach_inv.
   - apply reach_alias_inv.
   - apply reach_kind_inv.
+  - apply reach_defs_single.
 Qed.
